@@ -4,6 +4,9 @@ use crate::rng::Rng;
 
 pub mod c01;
 pub mod c02;
+pub mod c16;
+pub mod c15;
+pub mod c11;
 pub mod c20;
 pub mod c18;
 pub mod c17;
@@ -21,7 +24,7 @@ pub mod c10;
 
 /// run the real code for one request; None = unknown function
 pub fn run(r: &Req) -> Option<String> {
-    c01::run(r).or_else(|| c02::run(r)).or_else(|| c20::run(r)).or_else(|| c18::run(r)).or_else(|| c17::run(r)).or_else(|| c12::run(r)).or_else(|| c13::run(r)).or_else(|| c09::run(r)).or_else(|| c03::run(r)).or_else(|| c14::run(r)).or_else(|| c19::run(r)).or_else(|| c06::run(r)).or_else(|| c07::run(r)).or_else(|| c10::run(r))
+    c01::run(r).or_else(|| c02::run(r)).or_else(|| c16::run(r)).or_else(|| c15::run(r)).or_else(|| c11::run(r)).or_else(|| c20::run(r)).or_else(|| c18::run(r)).or_else(|| c17::run(r)).or_else(|| c12::run(r)).or_else(|| c13::run(r)).or_else(|| c09::run(r)).or_else(|| c03::run(r)).or_else(|| c14::run(r)).or_else(|| c19::run(r)).or_else(|| c06::run(r)).or_else(|| c07::run(r)).or_else(|| c10::run(r))
 }
 
 /// (request lines, whether the enumerated part was exhaustive over its stated bounds)
@@ -29,6 +32,9 @@ pub fn generate(prop: &str, tier: &str, rng: &mut Rng) -> (Vec<String>, bool) {
     match prop {
         "C01" => c01::generate(tier, rng),
         "C02" => c02::generate(tier, rng),
+        "C16" => c16::generate(tier, rng),
+        "C15" => c15::generate(tier, rng),
+        "C11" => c11::generate(tier, rng),
         "C20" => c20::generate(tier, rng),
         "C18" => c18::generate(tier, rng),
         "C17" => c17::generate(tier, rng),
@@ -51,6 +57,9 @@ pub fn rule(prop: &str, tier: &str) -> String {
     match prop {
         "C01" => c01::rule(tier),
         "C02" => c02::rule(tier),
+        "C16" => c16::rule(tier),
+        "C15" => c15::rule(tier),
+        "C11" => c11::rule(tier),
         "C20" => c20::rule(tier),
         "C18" => c18::rule(tier),
         "C17" => c17::rule(tier),
@@ -73,6 +82,7 @@ pub fn rule(prop: &str, tier: &str) -> String {
 pub fn compare(prop: &str, r: &Req, imp: &str, model: &str) -> Option<bool> {
     match prop {
         "C05" => Some(c05::compare(r, imp, model)),
+        "C15" => c15::compare(r, imp, model),
         "C12" => c12::compare(r, imp, model),
         "C06" => c06::compare(r, imp, model),
         "C07" => c07::compare(r, imp, model),
@@ -102,6 +112,9 @@ pub fn valid_case(prop: &str, r: &Req) -> bool {
     match prop {
         "C01" => c01::valid_case(r),
         "C02" => c02::valid_case(r),
+        "C16" => c16::valid_case(r),
+        "C15" => c15::valid_case(r),
+        "C11" => c11::valid_case(r),
         "C20" => c20::valid_case(r),
         "C18" => c18::valid_case(r),
         "C17" => c17::valid_case(r),
@@ -128,6 +141,12 @@ pub fn tags(prop: &str, r: &Req, imp: &str) -> Vec<String> {
     }
     if prop == "C09" {
         return c09::tags(r, imp);
+    }
+    if prop == "C15" {
+        return c15::tags(r, imp);
+    }
+    if prop == "C16" {
+        t.extend(c16::tags(r, imp));
     }
     if prop == "C13" {
         t.extend(c13::tags(r));
@@ -182,6 +201,7 @@ pub fn known_finding(prop: &str, r: &Req, imp: &str, spec: &str) -> Option<Strin
         "C14" => c14::known_finding(r, imp, spec),
         "C05" => c05::known_finding(r, imp, spec),
         "C17" => c17::known_finding(r, imp, spec),
+        "C15" => c15::known_finding(r, imp, spec),
         "C20" => c20::known_finding(r, imp),
         _ => None,
     }
@@ -190,4 +210,12 @@ pub fn known_finding(prop: &str, r: &Req, imp: &str, spec: &str) -> Option<Strin
 /// additional C08 request streams contributed by merged properties (aggregations, mapping)
 pub fn c08_extra(_tier: &str, _rng: &mut Rng) -> Vec<String> {
     vec![]
+}
+
+/// property-specific model-vs-spec comparison (None = generic exact / numeric token comparison)
+pub fn compare_model_spec(prop: &str, r: &Req, model: &str, spec: &str) -> Option<bool> {
+    match prop {
+        "C15" => c15::compare(r, model, spec),
+        _ => None,
+    }
 }
